@@ -348,11 +348,12 @@ example : runOps init [.libInit, .libInit, .register 1 .inPlace, .register 1 .in
 
 namespace Sig
 
-/-- **registration_signal_atomic** (full strength for the window itself): in every reachable
-state of the real code, (1) signals are blocked exactly while the running frame is between
-`pthread_sigmask(SIG_BLOCK)` and its restoration, (2) a signal can be delivered only outside that
-window, so (3) no interrupted frame is ever inside it: nothing runs between the mask and the
-restoration except the registration itself. -/
+/-- **registration_signal_atomic** (full strength): in every reachable state of the code,
+(1) signals are blocked exactly while the running frame is between `pthread_sigmask(SIG_BLOCK)`
+and its restoration – on the registration path and on the exit path, the latter including
+`urcu_bp_exit()` –, (2) a signal can be delivered only outside that window, so (3) no interrupted
+frame is ever inside it: nothing runs between the mask and the restoration except the
+registration / unregistration itself. -/
 theorem registration_signal_atomic {s : State} (h : Reach real s) :
     s.blocked = s.top.inWindow ∧
     (∀ s', step real s .signal = some s' → s.top.inWindow = false) ∧
@@ -375,28 +376,70 @@ theorem never_registered_twice {s : State} (h : Reach real s) :
   · rw [I.regs]; cases s.tls <;> simp
   · rw [I.regs]; cases s.tls <;> simp
 
-/-- `rcu_registry_lock` is never requested by a thread that holds it: at both lock sites the lock
-is not held by one of the thread's own frames (signals were blocked before it was taken and are
-restored after it is released). -/
+/-- `rcu_registry_lock` is never requested by a thread that holds it. -/
 theorem registry_lock_never_self_deadlocks {s : State} (h : Reach real s)
     (hp : s.top = .lock ∨ s.top = .xlock) : s.regHeld = false := by
   have I := inv_reach h
   rw [I.regH]; rcases hp with hp | hp <;> rw [hp] <;> rfl
 
+/-- `init_lock` is never requested by a thread that holds it (true since 760a93b). -/
+theorem init_lock_never_self_deadlocks {s : State} (h : Reach real s)
+    (hp : s.top = .initLock ∨ s.top = .xinitLock) : s.initHeld = false := by
+  have I := inv_reach h
+  rw [I.initH]
+  have hb : s.below.any Pc.holdsInit = false := by
+    apply Bool.eq_false_iff.mpr
+    intro hc
+    obtain ⟨p, hp', hh⟩ := List.any_eq_true.mp hc
+    have hw := I.bel_win p hp'
+    cases p <;> simp [Pc.holdsInit, Pc.inWindow] at hh hw
+  rw [hb]; rcases hp with hp | hp <;> rw [hp] <;> rfl
+
 /-- the read-side section always finds a reader: no NULL dereference after the registration path -/
 theorem section_has_reader {s : State} (h : Reach real s) (hp : s.top = .cs) : s.tls = true :=
   (inv_reach h).post_add (by rw [hp]; rfl)
 
-/-- **stuck_only_on_init_lock**: the only way a frame of the real code can be stuck is a handler
-waiting in `_urcu_bp_init()` for `init_lock` while the interrupted normal code holds it inside
+/-- The full "signals cannot hurt registration" statement: no frame is ever stuck (no
+self-deadlock on either mutex, no NULL reader in a section); a `run` is disabled only when the
+thread is idle. -/
+def signal_safe_full (c : Cfg) : Prop :=
+  ∀ s, Reach c s → step c s .run = none → s.top = .idle ∧ s.below = []
+
+/-- **signal_safe**: `signal_safe_full` holds for the code as it is. -/
+theorem signal_safe : signal_safe_full real := by
+  intro s h hs
+  have hreg := registry_lock_never_self_deadlocks h
+  have hini := init_lock_never_self_deadlocks h
+  have hcs := section_has_reader h
+  rcases s with ⟨top, below, blocked, tls, regs, regHeld, initHeld, refs⟩
+  cases top <;>
+    simp only [step, real, Bool.false_eq_true, ↓reduceIte, false_and, false_or, true_and, not_false_eq_true] at hs <;>
+    (try (simp at hs; done))
+  case idle =>
+    cases below with
+    | nil => exact ⟨rfl, rfl⟩
+    | cons p r => simp at hs
+  case initLock => have := hini (Or.inl rfl); simp only at this; subst this; simp at hs
+  case xinitLock => have := hini (Or.inr rfl); simp only at this; subst this; simp at hs
+  case lock => have := hreg (Or.inl rfl); simp only at this; subst this; simp at hs
+  case xlock => have := hreg (Or.inr rfl); simp only at this; subst this; simp at hs
+  case cs => have := hcs rfl; simp only at this; subst this; simp at hs
+
+/-! #### the code before 760a93b: the finding, kept as the Lean record -/
+
+set_option linter.unusedSimpArgs false in
+/-- In the unfixed order the only way a frame can be stuck is a handler waiting in
+`_urcu_bp_init()` for `init_lock` while the interrupted normal code holds it inside
 `urcu_bp_exit()` (entered from the exit notifier *after* the mask was restored). -/
-theorem stuck_only_on_init_lock {s : State} (h : Reach real s) (hs : step real s .run = none) :
+theorem stuck_only_on_init_lock_unfixed {s : State} (h : Reach unfixed s) (hs : step unfixed s .run = none) :
     (s.top = .idle ∧ s.below = []) ∨
     (s.top = .initLock ∧ s.initHeld = true ∧ (.xdec ∈ s.below ∨ .xinitUnlock ∈ s.below)) := by
-  have I := inv_reach h
+  have I := Unfixed.inv_reach h
   obtain ⟨h1, h2, h3, h4, h5, h6, h7, h8, h9, h10, h11, h12, h13⟩ := I
   rcases s with ⟨top, below, blocked, tls, regs, regHeld, initHeld, refs⟩
-  cases top <;> simp only [step, real, Bool.false_eq_true, ↓reduceIte, false_and] at hs <;>
+  cases top <;>
+    simp only [step, unfixed, Bool.false_eq_true, ↓reduceIte, false_and, false_or, or_false, and_false, true_and,
+      not_false_eq_true] at hs <;>
     (try (simp at hs; done))
   case idle =>
     left
@@ -415,7 +458,7 @@ theorem stuck_only_on_init_lock {s : State} (h : Reach real s) (hs : step real s
     have : below.any Pc.holdsInit = true := by simpa [Pc.holdsInit] using h4.symm
     obtain ⟨p, hp, hh⟩ := List.any_eq_true.mp this
     have hw := h2 p hp
-    cases p <;> simp [Pc.holdsInit, Pc.inWindow] at hh hw
+    cases p <;> simp [Pc.holdsInit, Pc.inWindowUnfixed] at hh hw
     · exact Or.inl hp
     · exact Or.inr hp
   case lock =>
@@ -445,24 +488,23 @@ theorem stuck_only_on_init_lock {s : State} (h : Reach real s) (hs : step real s
     | true => simp [Pc.holdsInit] at h4
     | false => simp at hs
 
-/-- The full "signals cannot hurt registration" statement: no frame is ever stuck. -/
-def signal_safe_full : Prop :=
-  ∀ s, Reach real s → step real s .run = none → s.top = .idle ∧ s.below = []
-
 def deadlockRun : List Lbl :=
   [.readLock] ++ List.replicate 11 .run ++ [.exit] ++ List.replicate 6 .run ++ [.signal] ++ List.replicate 3 .run
 
-/-- **FINDING** (`signal_safe_full` is false for the code as it is): a signal delivered while the
-exit notifier is inside `urcu_bp_exit()` (holding `init_lock`, signals already restored) whose
-handler executes `urcu_bp_read_lock()` re-registers the thread and self-deadlocks on `init_lock`.
-The harness reproduces exactly this run against the real code (`bp_arena dl 0`). -/
-theorem signal_safe_full_false : ¬ signal_safe_full := by
+/-- **FINDING (repaired in /repo by 760a93b)**: with the mask restored before `urcu_bp_exit()`, a
+signal delivered while the exit notifier holds `init_lock` whose handler executes
+`urcu_bp_read_lock()` re-registers the thread and self-deadlocks on `init_lock`.  The harness
+reproduces exactly this run against the unfixed source (`bp_arena dl 0`). -/
+theorem signal_safe_full_false_unfixed : ¬ signal_safe_full unfixed := by
   intro h
-  have hr : runLbls real init deadlockRun =
+  have hr : runLbls unfixed init deadlockRun =
       some { top := .initLock, below := [.xdec], blocked := true, tls := false, regs := 0,
              regHeld := false, initHeld := true, refs := 1 } := by decide
   have := h _ (reach_of_run Reach.init hr) (by decide)
   simp at this
+
+/-- the same schedule is impossible in the code as it is: the signal is not deliverable there -/
+example : runLbls real init deadlockRun = none := by decide
 
 /-! #### the re-check and the mask order are necessary (mutants of the model) -/
 
@@ -492,8 +534,14 @@ registers the thread; the interrupted frame's re-check sees it and does not regi
 example : (runLbls real init ([.readLock, .run, .signal] ++ List.replicate 12 .run ++ List.replicate 4 .run)).map
     (fun s => (s.top, s.regs, s.tls, s.refs)) = some (.idle, 1, true, 1) := by decide
 
-/-- a signal cannot be delivered inside the window -/
+/-- a signal cannot be delivered inside the registration window … -/
 example : (runLbls real init [.readLock, .run, .run, .signal]) = none := by decide
+/-- … nor anywhere between the exit path's mask and its restoration (7 calls later) -/
+example : ∀ n ∈ [1, 2, 3, 4, 5, 6, 7],
+    runLbls real init ([.readLock] ++ List.replicate 11 .run ++ [.exit] ++ List.replicate n .run ++ [.signal]) = none := by
+  decide
+example : (runLbls real init ([.readLock] ++ List.replicate 11 .run ++ [.exit] ++ List.replicate 8 .run ++ [.signal])).isSome := by
+  decide
 
 /-- register, exit, register again: one registry node at a time -/
 example : (runLbls real init ([.readLock] ++ List.replicate 11 .run ++ [.exit] ++ List.replicate 8 .run ++
